@@ -20,6 +20,38 @@ class Unresolvable(Exception):
     """A constant expression is outside what the constant evaluator understands."""
 
 
+def canonicalise(tree: ast.AST) -> ast.AST:
+    """Bring two spelling choices that do not change behaviour into one form, so that the rules see the same tree
+    whichever way the repository writes them:
+      * `if not c: A else: B` (else branch not an elif chain)  ->  `if c: B else: A`
+      * a single comparison with a constant on the LEFT and a side-effect free operand on the right is mirrored
+        (`20 < depth` -> `depth > 20`, `'_' != x.name` -> `x.name != '_'`).
+    Nodes keep their positions."""
+    flip = {ast.Lt: ast.Gt, ast.Gt: ast.Lt, ast.LtE: ast.GtE, ast.GtE: ast.LtE, ast.Eq: ast.Eq, ast.NotEq: ast.NotEq}
+
+    def simple(e) -> bool:
+        if isinstance(e, (ast.Name, ast.Constant)):
+            return True
+        if isinstance(e, ast.Attribute):
+            return simple(e.value)
+        if isinstance(e, ast.Subscript):
+            return simple(e.value) and simple(e.slice)
+        if isinstance(e, ast.Call):      # len(x), type(x): no effects worth an ordering
+            return isinstance(e.func, ast.Name) and e.func.id in ("len", "type", "id", "str", "int") and all(simple(a) for a in e.args) and not e.keywords
+        return False
+
+    for node in ast.walk(tree):
+        if isinstance(node, ast.If) and node.orelse and isinstance(node.test, ast.UnaryOp) and isinstance(node.test.op, ast.Not) \
+                and not (len(node.orelse) == 1 and isinstance(node.orelse[0], ast.If)) \
+                and not (len(node.body) == 1 and isinstance(node.body[0], ast.If)):
+            node.test, node.body, node.orelse = node.test.operand, node.orelse, node.body
+        elif isinstance(node, ast.Compare) and len(node.ops) == 1 and type(node.ops[0]) in flip \
+                and isinstance(node.left, ast.Constant) and not isinstance(node.comparators[0], ast.Constant) and simple(node.comparators[0]):
+            node.left, node.comparators = node.comparators[0], [node.left]
+            node.ops = [flip[type(node.ops[0])]()]
+    return tree
+
+
 def set_parents(tree: ast.AST) -> None:
     for parent in ast.walk(tree):
         for child in ast.iter_child_nodes(parent):
@@ -171,6 +203,7 @@ class Program:
                 tree = ast.parse(source)
             except SyntaxError as error:
                 raise AnalysisError(f"{path} does not parse: {error}") from error
+            canonicalise(tree)
             set_parents(tree)
             mod = Module(name, path, source, tree)
             self.modules[name] = mod
@@ -639,3 +672,19 @@ def returns_after(fn_node: ast.AST, loop: ast.AST):
 def last_return(fn_node: ast.AST):
     rets = [r for r in walk_own(fn_node) if isinstance(r, ast.Return)]
     return max(rets, key=lambda r: (r.lineno, r.col_offset)) if rets else None
+
+
+def default_return(prog, fn):
+    """The return statement that is reached when NONE of the branch conditions of the function holds (every literal of
+    its path condition is negative) - the 'otherwise' answer of an if-chain, whichever way the chain is nested."""
+    from .pathcond import PathAnalysis
+    pa = PathAnalysis(prog, fn)
+    best = None
+    for r in walk_own(fn.node):
+        if not isinstance(r, ast.Return):
+            continue
+        worlds = pa.worlds_at(r)
+        if worlds and any(all(f[0] == "lit" and not f[2] for f in w.facts) for w in worlds):
+            if best is None or len(worlds) <= best[1]:
+                best = (r, len(worlds))
+    return best[0] if best else last_return(fn.node)
